@@ -107,9 +107,10 @@ def invocation(env, case, img, cfg):
         # an undo file recorded against this very image (on a scratch copy, then the copy's result is moved in place so the undo file matches the target)
         u = os.path.join(d, 'c13.e2undo')
         if os.path.exists(u): os.unlink(u)
-        r = vrun.run([t.tune2fs, '-z', u, '-L', 'c13lbl', '-c', '9', img], merge=True)
+        # half of the undo files come from a recording that did not finish (e2undo then wants to mark the fs as needing a check - which -n must not do either)
+        r = vrun.run([t.tune2fs, '-z', u] + (['-O', '^metadata_csum'] if sub % 3 == 0 else ['-L', 'c13lbl', '-c', '9']) + [img], env=({'UNDO_IO_SIMULATE_UNFINISHED': '1'} if sub % 4 >= 2 else {}), merge=True)
         if r.rc != 0 or not os.path.exists(u): return None, None
-        return [t.e2undo, '-n'] + (['-v'] if sub % 2 else []) + [u, img], None
+        return [t.e2undo, '-n'] + (['-v'] if sub % 2 else []) + (['-f'] if sub % 5 == 0 else []) + [u, img], None
     raise KeyError(name)
 
 def body(case, env):
@@ -142,7 +143,7 @@ def run(ctx):
     ctx.assumptions = ['the syscall trace covers open/write/pwrite/ftruncate/fallocate/fsync of the gcc-built tools (mmap is not used by e2fsprogs for device I/O); the sha256 comparison is independent of the trace',
                        'modifying debugfs commands are issued without -w and must be refused; whatever the tool prints or exits with is not judged here, only the target bytes']
     tool.replay_tier(ctx, body, envinit)
-    n = int((300 if ctx.tier == 'quick' else 8000) * ctx.scale)
+    n = int((150 if ctx.tier == 'quick' else 8000) * ctx.scale)
     hyp.run_property(ctx, strategy, body, envinit, n)
 
 def replay_file(ctx, path): return tool.replay_file(ctx, path, body, envinit)
